@@ -48,11 +48,11 @@ func genRingz(repo string) (string, error) {
 			continue
 		}
 		switch selName(as.Lhs[0]) {
-		case "r.head":
+		case recvName(fd) + ".head":
 			if headS, err = ev(as.Rhs[0]); err != nil {
 				return "", fmt.Errorf("Ring.Init: r.head: %v", err)
 			}
-		case "r.tail":
+		case recvName(fd) + ".tail":
 			if tailS, err = ev(as.Rhs[0]); err != nil {
 				return "", fmt.Errorf("Ring.Init: r.tail: %v", err)
 			}
@@ -73,7 +73,7 @@ func genRingz(repo string) (string, error) {
 		return "", fmt.Errorf("Ring.IsEmpty: unexpected shape")
 	}
 	be, ok := ret.Results[0].(*ast.BinaryExpr)
-	if !ok || be.Op != token.EQL || selName(be.X) != "r.head" {
+	if !ok || be.Op != token.EQL || selName(be.X) != recvName(fd)+".head" {
 		return "", fmt.Errorf("Ring.IsEmpty: expected `r.head == <const>`")
 	}
 	emptyS, err := ev(be.Y)
@@ -90,13 +90,13 @@ func genRingz(repo string) (string, error) {
 	var factor *big.Int
 	ast.Inspect(fd.Body, func(n ast.Node) bool {
 		c, ok := n.(*ast.CallExpr)
-		if !ok || selName(c.Fun) != "r.Recap" || len(c.Args) != 1 {
+		if !ok || selName(c.Fun) != recvName(fd)+".Recap" || len(c.Args) != 1 {
 			return true
 		}
 		if m, ok := c.Args[0].(*ast.BinaryExpr); ok && m.Op == token.MUL {
-			if selName(m.X) == "r.cap" {
+			if selName(m.X) == recvName(fd)+".cap" {
 				factor, _ = ev(m.Y)
-			} else if selName(m.Y) == "r.cap" {
+			} else if selName(m.Y) == recvName(fd)+".cap" {
 				factor, _ = ev(m.X)
 			}
 		}
@@ -116,7 +116,7 @@ func genRingz(repo string) (string, error) {
 		var vs []*big.Int
 		ast.Inspect(fd.Body, func(n ast.Node) bool {
 			as, ok := n.(*ast.AssignStmt)
-			if ok && as.Tok == token.ASSIGN && len(as.Lhs) == 1 && len(as.Rhs) == 1 && selName(as.Lhs[0]) == field {
+			if ok && as.Tok == token.ASSIGN && len(as.Lhs) == 1 && len(as.Rhs) == 1 && selName(as.Lhs[0]) == recvName(fd)+field {
 				if v, e := ev(as.Rhs[0]); e == nil {
 					vs = append(vs, v)
 				}
@@ -129,11 +129,11 @@ func genRingz(repo string) (string, error) {
 		fn, field string
 		names     []string
 	}{
-		{"Ring.Push", "r.head", []string{"ring_push_first_head"}},
-		{"Ring.Pop", "r.head", []string{"ring_pop_last_head"}},
-		{"Ring.Pop", "r.tail", []string{"ring_pop_last_tail"}},
-		{"Ring.Recap", "r.head", []string{"ring_recap_empty_head", "ring_recap_head"}},
-		{"Ring.Recap", "r.tail", []string{"ring_recap_empty_tail"}},
+		{"Ring.Push", ".head", []string{"ring_push_first_head"}},
+		{"Ring.Pop", ".head", []string{"ring_pop_last_head"}},
+		{"Ring.Pop", ".tail", []string{"ring_pop_last_tail"}},
+		{"Ring.Recap", ".head", []string{"ring_recap_empty_head", "ring_recap_head"}},
+		{"Ring.Recap", ".tail", []string{"ring_recap_empty_tail"}},
 	} {
 		vs, err := constAssigns(w.fn, w.field)
 		if err != nil {
@@ -202,22 +202,34 @@ func genRingz(repo string) (string, error) {
 		return "", fmt.Errorf("roundupPowOfTwo not found")
 	}
 	var stop, shift, base *big.Int
+	iName, posName := "i", "pos" // the loop variable and the counter, whatever they are called
+	ast.Inspect(fd.Body, func(n ast.Node) bool {
+		if x, ok := n.(*ast.ForStmt); ok {
+			if as, ok := x.Init.(*ast.AssignStmt); ok && as.Tok == token.DEFINE && len(as.Lhs) == 1 {
+				iName = selName(as.Lhs[0])
+			}
+			if inc, ok := x.Post.(*ast.IncDecStmt); ok {
+				posName = selName(inc.X)
+			}
+		}
+		return true
+	})
 	ast.Inspect(fd.Body, func(n ast.Node) bool {
 		switch x := n.(type) {
 		case *ast.ForStmt:
-			if c, ok := x.Cond.(*ast.BinaryExpr); ok && c.Op == token.NEQ && selName(c.X) == "i" {
+			if c, ok := x.Cond.(*ast.BinaryExpr); ok && c.Op == token.NEQ && selName(c.X) == iName {
 				stop, _ = ev(c.Y)
 			}
-			if inc, ok := x.Post.(*ast.IncDecStmt); !ok || inc.Tok != token.INC || selName(inc.X) != "pos" {
+			if inc, ok := x.Post.(*ast.IncDecStmt); !ok || inc.Tok != token.INC || selName(inc.X) != posName {
 				stop = nil
 			}
 		case *ast.AssignStmt:
-			if x.Tok == token.SHR_ASSIGN && len(x.Lhs) == 1 && selName(x.Lhs[0]) == "i" {
+			if x.Tok == token.SHR_ASSIGN && len(x.Lhs) == 1 && selName(x.Lhs[0]) == iName {
 				shift, _ = ev(x.Rhs[0])
 			}
 		case *ast.ReturnStmt:
 			if len(x.Results) == 1 {
-				if b, ok := x.Results[0].(*ast.BinaryExpr); ok && b.Op == token.SHL && selName(b.Y) == "pos" {
+				if b, ok := x.Results[0].(*ast.BinaryExpr); ok && b.Op == token.SHL && selName(b.Y) == posName {
 					base, _ = ev(b.X)
 				}
 			}
